@@ -34,7 +34,7 @@ from ..prov import derive, index_of
 from ..sym import Explorer, is_const, show
 from ..wrules import model, w1, w2
 
-TECHNIQUE = "static analysis: binrw wire-model conformance against reference layouts and reader/writer symmetry; field-provenance (derives-from) rules on the MIR of the extraction functions; guarded-region analysis of the SKLB version dispatch; table conformance of the Havok type/tag codes; constant-identity check of the layer-group heap placement; sibling agreement of member_count()/members() and provenance of the presence bit-field widths"
+TECHNIQUE = "static analysis: binrw wire-model conformance against reference layouts and reader/writer symmetry; field-provenance (derives-from) rules on the MIR of the extraction functions; guarded-region analysis of the SKLB version dispatch; table conformance of the Havok type/tag codes; constant-identity check of the layer-group heap placement; sibling agreement of member_count()/members() and provenance of the presence bit-field widths; evaluation of the bit-field byte-count expression over counts 0..4096; dominance order of collection and root test in the deformer walk"
 TRUSTED = ["rustc nightly MIR", "binrw 0.14 attribute semantics as modelled in pv/wire.py", "spec/layouts.txt reference layouts (hand-written from format documentation)"]
 
 W1_TYPES = ["cmp::RacialScalingParameters", "tera::PlatePosition", "tera::TerrainHeader", "layer::LgbHeader", "layer::LayerChunkHeader", "pbd::PreBoneDeformerLink", "pbd::PreBoneDeformerItem", "pbd::PreBoneDeformerHeader", "pbd::RacialDeformer", "skeleton::SklbV1", "skeleton::SklbV2", "skeleton::SKLB"]
